@@ -394,11 +394,20 @@ pub fn cmd_sweep_c12(args: &[String]) {
     let key: [u8; 32] = rng.arr();
     let mut ctxs: Vec<[u8; 8]> = vec![[0u8; 8], [0xffu8; 8], *b"hello123", *b"ab\0cdefg", [0, 1, 2, 3, 4, 5, 6, 7], [1, 0, 0, 0, 0, 0, 0, 9], [0, 0, 0, 0, 0, 0, 0, 1]];
     for z in 0..8 { let mut c: [u8; 8] = rng.arr(); for b in c.iter_mut() { if *b == 0 { *b = 1; } } c[z] = 0; ctxs.push(c); }
+    // ... under an ordinary key and under the keys a wiped or never-initialised object holds (all-zero, all-0xff, a lone bit):
+    // a main key is any 32 bytes, and the all-zero key with the all-zero context is as valid an input as any other
+    let special_keys: Vec<[u8; 32]> = vec![[0u8; 32], [0xffu8; 32], { let mut k = [0u8; 32]; k[31] = 0x80; k }, { let mut k = [0u8; 32]; k[0] = 1; k }];
     for c in ctxs.clone().iter() {
         for &len in [16usize, 32, 33, 64].iter() {
             for &id in [0u64, 1, u64::MAX].iter() {
                 let (imps, sod) = kdf(len, id, c, &key);
                 compare(&mut rep, "kdf", imps, &[("libsodium", sod.as_ref())], json!({"len": len, "id": id.to_string(), "context": hex(c), "seed": seed}));
+            }
+        }
+        for sk in special_keys.iter() {
+            for &(len, id) in [(32usize, 0u64), (16, 1), (64, u64::MAX)].iter() {
+                let (imps, sod) = kdf(len, id, c, sk);
+                compare(&mut rep, "kdf (special main key)", imps, &[("libsodium", sod.as_ref())], json!({"len": len, "id": id.to_string(), "context": hex(c), "key": hex(sk)}));
             }
         }
         // flipping any single byte of the context changes the subkey
